@@ -389,11 +389,55 @@ func (d *Def[C]) judge(c C, res *Result) (caseJSON []byte, unknown []Violation) 
 	for _, v := range res.Violations {
 		if IsKnown(d.Property, v.Key) {
 			recordKnown(d.Property, d.check(), v.Key)
+		} else if surveyMode() {
+			recordSurvey(d.check(), v, caseJSON)
 		} else {
 			unknown = append(unknown, v)
 		}
 	}
 	return
+}
+
+// Survey mode (development aid, VERIF_SURVEY=1): unknown violations are
+// tallied per class key with one example each instead of failing the run.
+type surveyEntry struct {
+	Check   string          `json:"check"`
+	Key     string          `json:"key"`
+	Count   int             `json:"count"`
+	Example string          `json:"example"`
+	Case    json.RawMessage `json:"case"`
+}
+
+var survey = map[string]*surveyEntry{}
+
+func surveyMode() bool { return os.Getenv("VERIF_SURVEY") == "1" }
+
+func recordSurvey(check string, v Violation, caseJSON []byte) {
+	statsMu.Lock()
+	defer statsMu.Unlock()
+	k := check + "|" + v.Key
+	e := survey[k]
+	if e == nil {
+		e = &surveyEntry{Check: check, Key: v.Key, Example: v.Msg, Case: append([]byte(nil), caseJSON...)}
+		survey[k] = e
+	} else if len(caseJSON) < len(e.Case) {
+		e.Example, e.Case = v.Msg, append([]byte(nil), caseJSON...)
+	}
+	e.Count++
+}
+
+func flushSurvey() {
+	if len(survey) == 0 {
+		return
+	}
+	var all []*surveyEntry
+	for _, e := range survey {
+		all = append(all, e)
+	}
+	sort.Slice(all, func(i, j int) bool { return all[i].Key < all[j].Key })
+	b, _ := json.MarshalIndent(all, "", " ")
+	e := getenv()
+	_ = os.WriteFile(filepath.Join(e.out, fmt.Sprintf("survey-%d.json", e.shard)), b, 0o644)
 }
 
 func (d *Def[C]) failPath() string {
@@ -548,5 +592,6 @@ func Regress(t *testing.T, property string) {
 func Main(m *testing.M) {
 	code := m.Run()
 	Flush()
+	flushSurvey()
 	os.Exit(code)
 }
